@@ -35,10 +35,87 @@ def _expected_ok(r, e, res):
     return None
 
 
+def pair(x):
+    """float -> exact pair [n, d] of the specification (NaN = [0,0], +-inf = [+-1,0])"""
+    from fractions import Fraction
+    x = float(x)
+    if x != x:
+        return [0, 0]
+    if x in (float("inf"), float("-inf")):
+        return [1 if x > 0 else -1, 0]
+    f = Fraction(x).limit_denominator(10 ** 6)
+    return [f.numerator, f.denominator]
+
+
+def absval_pair(v):
+    if v in ("nan", None):
+        return [0, 0]
+    if v == "inf":
+        return [1, 0]
+    if v == "-inf":
+        return [-1, 0]
+    if isinstance(v, list):
+        return v
+    return [int(v), 1]
+
+
+def input_pairs(inp):
+    o = dict(inp)
+    o["obs"] = [absval_pair(v) for v in inp["obs"]]
+    o["fcst"] = [absval_pair(v) for v in inp["fcst"]]
+    return o
+
+
+AXIS = {"All": "all", "No": "no", "Time": "time", "Leadtime": "leadtime", "Location": "location"}
+
+
+def build_trace(obj, events, results):
+    """hook events of ONE Data object + the values the harness projected after each call -> a trace for Trace_DataImpl"""
+    ids = {}
+
+    def rid(x):
+        if x not in ids:
+            ids[x] = len(ids) + 1
+        return ids[x]
+
+    calls, steps = [], []
+    for e in events:
+        if e["ev"] == "Load":
+            steps.append({"ev": "Load", "field": e["field"].lower(), "ids": [rid(i) for i in e["ids"]], "propagated": 0})
+        elif e["ev"] == "Propagate":
+            if steps and steps[-1]["ev"] == "Load" and steps[-1]["field"] == e["field"].lower():
+                steps[-1]["propagated"] = e["changed"]
+        elif e["ev"] == "ObsRange":
+            steps.append({"ev": "ObsRange", "input": e["input"] + 1, "masked": e["masked"], "field": "obs", "ids": [], "propagated": 0})
+        elif e["ev"] == "GetScores":
+            calls.append({"fields": [f.lower() for f in e["fields"]], "input": e["input"] + 1,
+                          "axis": AXIS.get(e["axis"], e["axis"].lower()),
+                          "index": 1 if e["index"] is None else e["index"] + 1, "hit": e["hit"],
+                          "ids": [rid(i) for i in e["ids"]],
+                          "steps": [dict(s, input=s.get("input", 0), masked=s.get("masked", 0)) for s in steps]})
+            steps = []
+    if len(calls) != len(results):
+        return None
+    for c, vals in zip(calls, results):
+        c["values"] = [[pair(v) for v in np.asarray(a, float).reshape(-1)] for a in vals]
+    o = obj["opts"]
+    opts = dict(o)
+    opts["obsrange"] = [absval_pair(v) for v in o["obsrange"]]
+    return {"inputs": [input_pairs(i) for i in obj["inputs"]], "hasClim": obj["hasClim"], "clim": input_pairs(obj["clim"]),
+            "climType": obj["climType"], "opts": opts, "events": calls}
+
+
 def check_group(job):
-    """job = (dataset obj (no seq), list of sequences, fmt). Returns dict(n, traces, divs)."""
-    obj, seqs, fmt = job
-    out = {"n": 0, "traces": 0, "divs": []}
+    """job = (dataset obj (no seq), list of sequences, fmt[, record]). Returns dict(n, traces, divs, recorded)."""
+    import os
+    record = len(job) > 3 and job[3]
+    obj, seqs, fmt = job[0], job[1], job[2]
+    out = {"n": 0, "traces": 0, "divs": [], "recorded": []}
+    tracefile = None
+    if record:
+        from harness import par
+        tracefile = os.path.join(par.workdir(), "hook.ndjson")
+        os.environ["VERIF_TLA_TRACE"] = tracefile
     base = {"kind": "history", "format": fmt, "dataset": obj}
 
     def div(site, detail, seq, step):
@@ -57,6 +134,9 @@ def check_group(job):
              for name in ("obs", "fcst") if getattr(i, name, None) is not None] if fmt == "text" else []
     for seq in seqs:
         out["traces"] += 1
+        results = []
+        if tracefile:
+            open(tracefile, "w").close()
         try:
             with quiet():
                 data = dsreplay.make_data(obj, inputs, clim)
@@ -66,6 +146,7 @@ def check_group(job):
                 with quiet():
                     res = dsreplay.do_request(data, r)
                 out["n"] += 1
+                results.append([np.array(a, float) for a in res])
                 msg = _expected_ok(r, step["e"], res)
                 if msg:
                     div("history:result", "after %s, request %s: %s" % ([s["r"] for s in seq[:q]], r, msg), seq, q)
@@ -86,6 +167,13 @@ def check_group(job):
             div("history:error-exit", "sequence %s ended in an error exit" % ([s["r"] for s in seq],), seq, None)
         except Exception as e:
             div(exc_site(e), "sequence %s: %r" % ([s["r"] for s in seq], e), seq, None)
+        if tracefile:
+            with open(tracefile) as f:
+                events = [json.loads(x) for x in f if x.strip()]
+            tr = build_trace(obj, events, results) if events else None
+            out["recorded"].append(tr if tr else {"nohooks": True})
+    if tracefile:
+        os.environ.pop("VERIF_TLA_TRACE", None)
     for (i, name, snap) in snaps:
         out["n"] += 1
         if not _same(np.array(getattr(i, name), float), snap):
